@@ -9,33 +9,33 @@ CHECKS = {
    note="No semantic oracle for suffix-free programs. Generator mask for KF-C05-1 (un-annotated bindings of suffix-free literals) in force and printed in DESIGN.md.",
    design="DESIGN.md section 2 / C05"),
  "C17": dict(
-   technique="fault-injection monitor: rule-breaking edits (29 rules, AST- and token-level) of accepted programs must all be rejected by the real type checker",
-   text="Exploration: for every generated, accepted, fully annotated base program each applicable site (3 sampled per rule in the quick tier, all in thorough) of each rule - operand/argument/return/branch/arm/annotation type, non-bool condition, shift amount, index type, unknown identifier/field/variant/type, assignment to immutable bindings (plain, compound, through accessors), use after scope end, wrong argument / field / payload / tuple-pattern counts, refutable let / for patterns, direct and mutual recursion, unused private fn, pub fn without parameters, cast of / match on unsupported types - plus pairs of different edits.",
+   technique="fault-injection monitor: rule-breaking edits (31 rules, AST- and token-level) of accepted programs must all be rejected by the real type checker",
+   text="Exploration: for every generated, accepted, fully annotated base program each applicable site (3 sampled per rule in the quick tier, all in thorough) of each rule - operand/argument/return/branch/arm/annotation type, non-bool condition, shift amount, index type, unknown identifier/field/variant/type, assignment to immutable bindings (plain, compound, through accessors), use after scope end, wrong argument / field / payload / tuple-pattern counts, refutable let / for patterns, direct and mutual recursion, unused private fn, pub fn without parameters (uncalled and called), declared return type changed to () or another type, cast of / match on unsupported types - plus pairs of different edits. Mutants are printed with every literal suffixed, so inference cannot rescue an operand of another type.",
    note="Each edit is built to violate a documented rule; mutants rejected already by the parser are counted separately.",
    design="DESIGN.md section 2 / C17"),
  "C09": dict(
    technique="round-trip monitor with an independent codec and a denotation function: every literal the API accepts (parsed text or programmatic value, incl. corrupted and alternative forms) must encode exactly as the value it denotes",
-   text="Exploration: generated nested types (arrays/tuples/structs/enums over all primitive types), boundary-biased values; canonical text, alternative spellings (suffix-free numbers, trailing commas, permuted struct fields, repeat form), canonical and corrupted programmatic literals (permuted/duplicated/missing fields, wrong arity, out-of-range numbers, wrong tags, valid/inverted/overflowing/untyped ranges, repeat counts, wrong names) through parse_arg, literal_arg, Evaluator::set_literal, parse_output, Literal::parse/Display, set_<int>/TryFrom<EvalOutput>; identity circuit.",
+   text="Exploration: generated nested types (arrays/tuples/structs/enums over all primitive types), boundary-biased values; canonical text, alternative spellings (suffix-free numbers, trailing commas, permuted struct fields, repeat form), canonical and corrupted programmatic literals (permuted/duplicated/missing fields, wrong arity, out-of-range numbers, wrong tags, valid/inverted/overflowing/untyped ranges, repeat counts, wrong names) through parse_arg, literal_arg, Evaluator::set_literal, parse_output, Literal::parse/Display, set_<int>/TryFrom<EvalOutput>; the printed text of every corrupted literal through parse_arg; canonical texts with one number replaced by a number outside the range of its type (must be refused); enums with zero-field tuple variants V(); identity circuit.",
    note="Trusted: the harness codec (documented layout) and denotation function.",
    design="DESIGN.md section 2 / C09"),
  "C12": dict(
    technique="differential runtime monitor: compile_with_constants vs. the literally substituted program (values computed by the harness in wrapping arithmetic of the constant's type), plus fault injection on the supplied constants",
-   text="Exploration: generated const declarations (external values, references to earlier consts, nested min/max/+/-; bool, unsigned, signed, usize incl. sizes 0 and 1, wrapping intermediates) used as operands, array sizes, repeat counts, loop trip counts, join sizes and number of parties; party sizes, output size and flag/reason/value on 256 random inputs per case; missing entry / missing party / mistyped literal / mixed faults with inspection of the returned error.",
+   text="Exploration: generated const declarations (external values, references to earlier consts, nested min/max/+/-; bool, unsigned, signed, usize incl. sizes 0 and 1, wrapping intermediates) used as operands, array sizes, repeat counts, loop trip counts, join sizes and number of parties; array sizes written as inline const exprs `const { A - B + C }` with underflowing intermediates (the compiler's second const evaluator), also over const-sized rows; a value of every such parameter through parse_arg and literal_arg of both programs; party sizes, output size and flag/reason/value on 256 random inputs per case; missing entry / missing party / mistyped literal / mixed faults with inspection of the returned error.",
    note="The substituted program's own semantics are covered by C01; usize constants use 32-bit wrapping.",
    design="DESIGN.md section 2 / C12"),
  "C08": dict(
    technique="reference-model runtime monitor: an independent pattern matcher decides exhaustiveness by evaluation over all values / one representative per boundary-induced region, and predicts the first matching arm and its bindings for every evaluated scrutinee value",
-   text="Exploration: generated arm lists (literals, inclusive/exclusive ranges at MIN/MAX/0, tuples, structs with '..', enums, nesting, bindings, wildcards anywhere) over generated scrutinee types; checker verdict vs oracle verdict, reported missing cases vs oracle, compiled circuit (dedup on/off) vs first-match semantics on the representative values.",
+   text="Exploration: generated arm lists (literals, inclusive/exclusive ranges at MIN/MAX/0, tuples, structs with '..', enums, nesting, bindings, wildcards anywhere) over generated scrutinee types; checker verdict vs oracle verdict, reported missing cases vs oracle, compiled circuit (dedup on/off) vs first-match semantics on the representative values; arm lists containing a number / range pattern outside the scrutinee's integer type or with the suffix of another type must be rejected.",
    note="Exactness of the region argument: every arm is a union of products of intervals, so one representative per elementary region per component suffices; products above 60k values are skipped and counted.",
    design="DESIGN.md section 2 / C08"),
  "C13": dict(
    technique="reference-model runtime monitor (sorted-merge join inside the interpreter, multiset oracle for join) plus complete 0/1 truth tables of the sorting networks driven through the builder hook",
-   text="Exploration with exhaustive sub-spaces: bitonic sorter on all 0/1 inputs for lengths 1..14 (16 thorough), merger on all bitonic 0/1 inputs for power-of-two lengths; for-join programs with order- and key-sensitive, possibly panicking bodies on all order types of two small key sets (n+m <= 7) and random keys; join built-in on all 0/1-keyed sorted arrays and random keys incl. duplicates (plain variant).",
+   text="Exploration with exhaustive sub-spaces: bitonic sorter on all 0/1 inputs for lengths 1..14 (16 thorough), merger on all bitonic 0/1 inputs for power-of-two lengths; for-join programs with order- and key-sensitive, possibly panicking bodies on all order types of two small key sets (n+m <= 7) and random keys; join built-in on all 0/1-keyed sorted arrays and random keys incl. duplicates (plain variant); a third of the key sets mirrored to the top of the key type (maximum key present in both arrays).",
    note="Inputs respect the contract (sorted; strictly for for-join / associated data). Sizes above the bound are not covered.",
    design="DESIGN.md section 2 / C13"),
  "C01": dict(
    technique="reference-model runtime monitor: generated well-typed programs are compiled by the real compiler in 4 configurations and every execution is judged against an independent source-level interpreter",
-   text="Exploration: ~10^5 generated programs per quick run (expressions, all operators, casts, if/match/blocks, let/let mut, nested assignments, loops, calls, arrays/ranges/tuples/structs/enums), 24-48 boundary-biased argument tuples each, SSA and register form, dedup on and off; values compared through an independent codec and cross-checked with parse_arg / eval / parse_output.",
+   text="Exploration: ~10^5 generated programs per quick run (expressions, all operators with and without redundant parentheses, casts, if/match/blocks, let/let mut with and without annotation, nested assignments, loops incl. over zero-sized elements and empty arrays, calls with colliding names, top-level consts shadowed by parameters and locals, arrays/ranges/tuples/structs/enums), 24-48 boundary-biased argument tuples each, SSA and register form, dedup on and off; values compared through an independent codec and cross-checked with parse_arg / eval / parse_output.",
    note="Trusted: the reference interpreter (Appendix A of DESIGN.md) and the harness codec/evaluators. Programs beyond the size bounds and argument values not sampled are not covered. Executions touching a listed known finding are skipped and counted.",
    design="DESIGN.md section 2 / C01"),
  "C02": dict(
@@ -60,7 +60,7 @@ CHECKS = {
    design="DESIGN.md section 2 / C04"),
  "C06": dict(
    technique="repeated-execution monitor: every program is compiled repeatedly in-process and in fresh processes (fresh hash seeds, canary-observed) and the structural circuit hashes are compared",
-   text="Exploration: programs (crafted const chains, panic sharing, many definitions, corpus, operator programs) x dedup settings, each compiled many times under varying HashMap seeds; any difference in party sizes, gate list or outputs (or Ok vs error) is a violation.",
+   text="Exploration: programs (crafted const chains, panic sharing, many definitions, corpus, operator programs) x dedup settings, each compiled many times under varying HashMap seeds; any difference in party sizes, gate list or outputs (or Ok vs error) is a violation. History independence: every program compiled in a fresh thread and again in a fresh thread right after a sibling program (same text of every definition, other constant values / another width of a primitive type inside a type definition); crafted programs above 2^17 gates for size-triggered behaviour.",
    note="Hash seeds are sampled, not controlled; a canary map records how many distinct iteration orders were actually seen.",
    design="DESIGN.md section 2 / C06"),
  "C10": dict(
@@ -75,7 +75,7 @@ CHECKS = {
    design="DESIGN.md section 2 / C11"),
  "C15": dict(
    technique="structural invariant monitor at the quiescent point (finished circuit): reachability, AND-operand and AND-duplicate predicates; generated data-movement programs must have zero AND gates",
-   text="Exploration: every compiled corpus/operator program in both dedup settings plus generated re-packing / destructuring / constant-index programs.",
+   text="Exploration: every compiled corpus/operator program in both dedup settings, generated re-packing / destructuring / constant-index programs (zero AND gates demanded) and general generated programs (all constructs, zero-sized results included) for the structural predicates.",
    note="Structural reading of 'constant operand': the two constant gates directly after the inputs.",
    design="DESIGN.md section 2 / C15"),
  "C16": dict(
